@@ -15,8 +15,10 @@ var Registry = map[string]func(p *load.Prog, r *oblig.Run){
 	"C07": C07,
 	"C08": C08,
 	"C09": C09,
+	"C11": C11,
 	"C13": C13,
 	"C14": C14,
 	"C15": C15,
 	"C18": C18,
+	"C19": C19,
 }
